@@ -12,7 +12,7 @@ import (
 // The variables container against Model/VarsHeap.lean: random operation sequences on a heap of real containers
 // (Set, Get, Has, Map, Merge, With; a container is also merged with / into itself, and containers that took part
 // in a Merge or a With are modified afterwards - the result must not change, nor the originals).
-func varsOpsCases(col *Collector, rng *rand.Rand, n int) {
+func varsOpsCases(col *Collector, rng *rand.Rand, n int, sig string) {
 	keys := []string{"a", "b", "c", "TASK_NAME", "_"}
 	vals := []string{"x", "y", "z", "_", "1"}
 	un := func(s string) string {
@@ -23,7 +23,28 @@ func varsOpsCases(col *Collector, rng *rand.Rand, n int) {
 	}
 	for i := 0; i < n; i++ {
 		var heap []variables.Container
+		var ref []map[string]string // what a plain map per container would hold (an oracle independent of the model)
 		var line, impl []string
+		fail := ""
+		same := func(c int) {
+			m := heap[c].Map()
+			ok := len(m) == len(ref[c])
+			for k, v := range ref[c] {
+				if got, has := m[k]; !has || fmt.Sprint(got) != v {
+					ok = false
+				}
+			}
+			if !ok && fail == "" {
+				fail = fmt.Sprintf("container %d holds %v, the operations applied to it give %v (an operation on another container changed it, or Merge / With / Set did not do what a map does)", c, m, ref[c])
+			}
+		}
+		clone := func(m map[string]string) map[string]string {
+			o := map[string]string{}
+			for k, v := range m {
+				o[k] = v
+			}
+			return o
+		}
 		nops := 10 + rng.Intn(30)
 		func() {
 			defer func() {
@@ -50,6 +71,7 @@ func varsOpsCases(col *Collector, rng *rand.Rand, n int) {
 					} else {
 						heap = append(heap, variables.FromMap(map[string]string{}))
 					}
+					ref = append(ref, map[string]string{})
 					impl = append(impl, fmt.Sprint(len(heap)-1))
 				case 1, 2, 3:
 					line = append(line, fmt.Sprintf("s%d:%s=%s", c, k, v))
@@ -57,6 +79,7 @@ func varsOpsCases(col *Collector, rng *rand.Rand, n int) {
 						impl = append(impl, "bad")
 					} else {
 						heap[c].Set(un(k), un(v))
+						ref[c][un(k)] = un(v)
 						impl = append(impl, "ok")
 					}
 				case 4:
@@ -82,6 +105,11 @@ func varsOpsCases(col *Collector, rng *rand.Rand, n int) {
 						impl = append(impl, "bad")
 					} else {
 						heap = append(heap, heap[c].Merge(heap[b]))
+						r := clone(ref[c])
+						for kk, vv := range ref[b] {
+							r[kk] = vv
+						}
+						ref = append(ref, r)
 						impl = append(impl, fmt.Sprint(len(heap)-1))
 					}
 				case 8:
@@ -90,6 +118,9 @@ func varsOpsCases(col *Collector, rng *rand.Rand, n int) {
 						impl = append(impl, "bad")
 					} else {
 						heap = append(heap, heap[c].With(un(k), un(v)))
+						r := clone(ref[c])
+						r[un(k)] = un(v)
+						ref = append(ref, r)
 						impl = append(impl, fmt.Sprint(len(heap)-1))
 					}
 				case 9:
@@ -109,6 +140,7 @@ func varsOpsCases(col *Collector, rng *rand.Rand, n int) {
 			}
 			// at the end: every container once more, so that a late effect on an earlier container shows
 			for c := range heap {
+				same(c)
 				line = append(line, fmt.Sprintf("d%d", c))
 				m := heap[c].Map()
 				var es []string
@@ -121,6 +153,9 @@ func varsOpsCases(col *Collector, rng *rand.Rand, n int) {
 		}()
 		cs := Case{Line: "varsops " + strings.Join(line, " "), Impl: strings.Join(impl, "|"), Tags: []string{"container-ops", fmt.Sprintf("containers=%d", len(heap))}, NonTrivial: true}
 		cs.Replay = cs.Line
+		if fail != "" {
+			cs.Fail, cs.Sig = fail, sig
+		}
 		col.Add(cs)
 	}
 }
